@@ -32,7 +32,7 @@ Lemma cc_S f (l : list E) size cap removed :
 Proof. reflexivity. Qed.
 
 (* no wrap, no nil dereference: the loop is the loop of LRU.v *)
-Lemma gcheck_eq : forall l cp removed, nonneg l -> total l <= MaxI64 -> 0 <= cp ->
+Lemma gcheck_eq : forall (l : list E) cp (removed : list E), nonneg l -> total l <= MaxI64 -> 0 <= cp ->
   gcheck (S (length l)) l (total l) cp removed = (check_capacity KV (length l) l (total l) cp removed, false).
 Proof.
   intros l. induction l as [|x l IH] using rev_ind; intros cp removed Hn Ht Hc.
@@ -49,24 +49,24 @@ Proof.
     apply IH; [exact Hl|lia|exact Hc].
 Qed.
 
-Lemma gchk_eq l sz cp ev : nonneg l -> sz = total l -> total l <= MaxI64 -> 0 <= cp ->
+Lemma gchk_eq (l : list E) sz cp ev : nonneg l -> sz = total l -> total l <= MaxI64 -> 0 <= cp ->
   gchk l sz cp ev = (check l sz cp ev, false).
 Proof.
-  intros Hn -> Ht Hc. unfold gchk, check. rewrite (gcheck_eq l cp [] Hn Ht Hc).
+  intros Hn -> Ht Hc. unfold gchk, check. rewrite (gcheck_eq l cp [] Hn Ht Hc). unfold E in *.
   destruct (check_capacity KV (length l) l (total l) cp []) as [[l' s'] removed]. reflexivity.
 Qed.
 
-Lemma gchk_spec l sz cp ev : nonneg l -> sz = total l -> total l <= MaxI64 -> 0 <= cp ->
+Lemma gchk_spec (l : list E) sz cp ev : nonneg l -> sz = total l -> total l <= MaxI64 -> 0 <= cp ->
   gchk l sz cp ev =
   ({| lst := trim cp l; size := total (trim cp l); cap := cp; evs := ev + Z.of_nat (length (dropped cp l)) |},
    rev (dropped cp l), false).
 Proof. intros Hn Hs Ht Hc. rewrite gchk_eq by assumption. rewrite check_spec by assumption. reflexivity. Qed.
 
-Lemma dropped_fits l cp : nonneg l -> 0 <= cp -> total l <= cp -> dropped cp l = [].
+Lemma dropped_fits (l : list E) cp : nonneg l -> 0 <= cp -> total l <= cp -> dropped cp l = [].
 Proof. intros Hn Hc Ht. unfold dropped. rewrite (trim_fits KV l cp Hn Hc Ht). apply skipn_all. Qed.
 
 (* a list that fits is left alone *)
-Lemma gchk_noop l sz cp ev : nonneg l -> sz = total l -> total l <= cp -> 0 <= cp -> cp <= MaxI64 ->
+Lemma gchk_noop (l : list E) sz cp ev : nonneg l -> sz = total l -> total l <= cp -> 0 <= cp -> cp <= MaxI64 ->
   gchk l sz cp ev = ({| lst := l; size := sz; cap := cp; evs := ev |}, [], false).
 Proof.
   intros Hn Hs Ht Hc Hm. rewrite gchk_spec by (try assumption; lia).
@@ -191,8 +191,6 @@ Proof. unfold units, remove_key. intros H. apply Forall_forall. intros e He. app
 Lemma units_trim cp l : units l -> units (trim cp l).
 Proof. unfold units. intros H. rewrite (trim_dropped cp l) in H. apply Forall_app in H. tauto. Qed.
 
-Definition ilist (s : istate) : list E := fst (fst s).
-
 Lemma istep_units l cp ev o : units l -> units (ilist (fst (istep (l, cp, ev) (unit_op o)))).
 Proof.
   intros Hu. unfold ilist.
@@ -270,16 +268,7 @@ Proof.
   intros H. split; [|cbn; lia]. destruct v; [apply new_inv; lia|]. split; [apply new_inv; lia|constructor].
 Qed.
 
-(* ---------------- what the accessors return ---------------- *)
-Definition keys_of (c : lru) : list Z := map keyof (lst c).                       (* Keys() *)
-Definition items_of (c : lru) : list (Z * Z) := map fst (lst c).                  (* Items() *)
-Definition stats_of (c : lru) : Z * Z * Z * Z := (Z.of_nat (length (lst c)), size c, cap c, evs c).   (* Stats() *)
-(* the same for the ideal cache: entries most recently used first, Length, summed size, capacity, evictions *)
-Definition ikeys (s : istate) : list Z := map keyof (ilist s).
-Definition iitems (s : istate) : list (Z * Z) := map fst (ilist s).
-Definition istats (s : istate) : Z * Z * Z * Z :=
-  (Z.of_nat (length (ilist s)), total (ilist s), snd (fst s), snd s).
-
+(* ---------------- what the accessors return (definitions in C04_Model.v) ---------------- *)
 Lemma observables_abs c : size c = total (lst c) ->
   keys_of c = ikeys (abs c) /\ items_of c = iitems (abs c) /\ stats_of c = istats (abs c).
 Proof. intros H. unfold keys_of, items_of, stats_of, ikeys, iitems, istats, ilist, abs. cbn [fst snd]. rewrite H. auto. Qed.
